@@ -32,16 +32,33 @@ type TransientListener interface {
 }
 
 type TransientData struct {
-	mu        sync.Mutex
-	data      map[string]interface{}
-	listeners map[TransientListener]bool
-	timers    map[string]*time.Timer
-	ttlCh     chan<- struct{}
+	mu     sync.Mutex
+	data   map[string]interface{}
+	timers map[string]*time.Timer
+	ttlCh  chan<- struct{}
+
+	// The listeners have their own lock so "RemoveListener" never has to wait
+	// for "mu": notifications are sent with "mu" held and a listener might
+	// take a lock there that is also held while it is being removed.
+	listenersMu sync.Mutex
+	listeners   map[TransientListener]bool
 }
 
 // NewTransientData creates a new transient data container.
 func NewTransientData() *TransientData {
 	return &TransientData{}
+}
+
+// getListeners returns a copy of the registered listeners.
+func (t *TransientData) getListeners() []TransientListener {
+	t.listenersMu.Lock()
+	defer t.listenersMu.Unlock()
+
+	listeners := make([]TransientListener, 0, len(t.listeners))
+	for listener := range t.listeners {
+		listeners = append(listeners, listener)
+	}
+	return listeners
 }
 
 func (t *TransientData) notifySet(key string, prev, value interface{}) {
@@ -54,7 +71,7 @@ func (t *TransientData) notifySet(key string, prev, value interface{}) {
 			Value:    value,
 		},
 	}
-	for listener := range t.listeners {
+	for _, listener := range t.getListeners() {
 		listener.SendMessage(msg)
 	}
 }
@@ -68,7 +85,7 @@ func (t *TransientData) notifyDeleted(key string, prev interface{}) {
 			OldValue: prev,
 		},
 	}
-	for listener := range t.listeners {
+	for _, listener := range t.getListeners() {
 		listener.SendMessage(msg)
 	}
 }
@@ -78,10 +95,12 @@ func (t *TransientData) AddListener(listener TransientListener) {
 	t.mu.Lock()
 	defer t.mu.Unlock()
 
+	t.listenersMu.Lock()
 	if t.listeners == nil {
 		t.listeners = make(map[TransientListener]bool)
 	}
 	t.listeners[listener] = true
+	t.listenersMu.Unlock()
 	if len(t.data) > 0 {
 		msg := &ServerMessage{
 			Type: "transient",
@@ -96,8 +115,8 @@ func (t *TransientData) AddListener(listener TransientListener) {
 
 // RemoveListener removes a previously registered listener.
 func (t *TransientData) RemoveListener(listener TransientListener) {
-	t.mu.Lock()
-	defer t.mu.Unlock()
+	t.listenersMu.Lock()
+	defer t.listenersMu.Unlock()
 
 	delete(t.listeners, listener)
 }
